@@ -310,13 +310,16 @@ def traj_scenario(c, k):
         elif ev[0] == "delbias":
             biases = [b for b in biases if b["id"] != ev[1]]
             L.append("script cv bias b%d delete" % ev[1])
+        elif ev[0] == "badconfig":
+            # rejected: a restraint on a variable that does not exist (the error is expected)
+            L += ["echo EXPECTERR"] + heredoc(["harmonic {", "  name bad", "  colvars nosuchvariable", "  centers 0.0", "  forceConstant 1.0", "}"])
         elif ev[0] == "freq":
             freq = ev[1]
             L += heredoc(["colvarsTrajFrequency %d" % freq])
         elif ev[0] == "restart":
             seg += 1
             f = "c%d_%d.state" % (k, seg)
-            L += ["flush", "save text %s" % f, "prefix c%ds%d" % (k, seg), "fresh"] + conf() + ["load %s" % f]
+            L += ["flush", "save %s %s" % (c.get("fmt", "text"), f), "prefix c%ds%d" % (k, seg), "fresh"] + conf() + ["load %s" % f]
     L += ["flush", "echo END %d" % k]
     return L
 
@@ -371,6 +374,9 @@ def traj_model_and_expect(c, calcs):
             cur["events"].append(["G"] + enc_cfg(vars_, order_at(ci)))
         elif ev[0] == "delbias":
             biases = [b for b in biases if b["id"] != ev[1]]
+            cur["events"].append(["G"] + enc_cfg(vars_, order_at(ci)))
+        elif ev[0] == "badconfig":
+            # the rejected bias is created and deleted again: config_changed() is called, the objects are unchanged
             cur["events"].append(["G"] + enc_cfg(vars_, order_at(ci)))
         elif ev[0] == "freq":
             freq = ev[1]
@@ -624,6 +630,21 @@ def check_traj_case(run, c, k, impl_lines, scratch, model):
     calcs, misc = parse_dump(impl_lines)
     ncalc = sum(1 for e in c["events"] if e[0] == "step")
     replay = {"kind": "traj", "case": c}
+    # a configuration that is expected to be rejected: its error is not a failure of the scenario
+    misc2, skip = [], False
+    nrej = 0
+    for l in misc:
+        if l.startswith("echo EXPECTERR"):
+            skip = True
+            continue
+        if skip and l.startswith("CONFIG err="):
+            skip = False
+            if "err=ok" in l:
+                run.mismatch("trajrun", c, l, "the configuration with an unknown variable is rejected")
+            nrej += 1
+            continue
+        misc2.append(l)
+    misc = misc2
     if any(l.startswith("LOAD err=") and "err=ok" not in l for l in misc):
         run.dist("traj:skipped-load-error")
         return 0
@@ -823,6 +844,15 @@ def check_traj_case(run, c, k, impl_lines, scratch, model):
     return ncmp
 
 
+BIG_STEPS = [2 ** 31 - 3, 2 ** 31, 2 ** 32 - 2, 2 ** 32 + 5, 2 ** 53 - 1, 2 ** 53 + 2, 2 ** 62 - 4000]      # (the OCaml driver reads 63-bit integers)
+
+
+def big_step(r, freq=1):
+    """a first step around 2^31, 2^32, 2^53, 2^62, sometimes moved onto a multiple of freq"""
+    b = r.choice(BIG_STEPS)
+    return b - (b % freq) if r.random() < 0.5 else b
+
+
 def gen_traj_case(r, tier):
     nv = r.choice([1, 1, 2, 2, 3])
     vars_ = []
@@ -891,8 +921,8 @@ def gen_traj_case(r, tier):
         if b:
             biases.append(b)
             bid += 1
-    freq = r.choice([1, 1, 2, 2, 3, 4, 5])
-    it0 = r.choice([0, 0, freq * r.randint(1, 5), freq * r.randint(1, 5) + 1, 1000 * freq - r.randint(0, 4), r.randint(1, 40)])
+    freq = r.choice([1, 1, 2, 2, 3, 4, 5, 6, 7, 12])
+    it0 = r.choice([0, 0, freq * r.randint(1, 5), freq * r.randint(1, 5) + 1, 1000 * freq - r.randint(0, 4), r.randint(1, 40), big_step(r, freq)])
     dt = r.choice([0.5, 1.0, 2.0])
     nsteps = r.randint(5, 12) if tier == "quick" else r.randint(5, 30)
     events = []
@@ -947,8 +977,10 @@ def gen_traj_case(r, tier):
             else:
                 events.append(["step", newpos()])
                 continue
+        elif u < 0.33:
+            events.append(["badconfig"])
         elif u < 0.36:
-            freq2 = r.choice([1, 2, 3, 4])
+            freq2 = r.choice([1, 2, 3, 4, 6, 7])
             events.append(["freq", freq2])
         elif u < 0.42:
             events.append(["restart"])
@@ -969,7 +1001,7 @@ def gen_traj_case(r, tier):
                 add_step_forces(e)
             prev = e
     return {"kind": "traj", "freq": freq, "it0": it0, "dt": dt, "vars": vars_, "biases": biases, "events": events, "eforce": eforce,
-            "lagged": r.random() < 0.3}
+            "lagged": r.random() < 0.3, "fmt": r.choice(["text", "binary"])}
 
 
 def gen_traj_big(r, tier):
@@ -991,8 +1023,11 @@ def gen_traj_big(r, tier):
 # ------------------------------------------------------------------ running average cases
 def runave_scenario(c, k):
     v = {"id": 0, "type": "z", "value": True}
-    extra = ["  runAve on", "  runAveLength %d" % c["L"], "  runAveStride %d" % c["stride"]]
-    conf = heredoc(["colvarsTrajFrequency 1"] + var_block(v, extra))
+
+    def mkconf(stride, L_=None):
+        return heredoc(["colvarsTrajFrequency 1"] + var_block(v, ["  runAve on", "  runAveLength %d" % (L_ or c["L"]), "  runAveStride %d" % stride]))
+    conf = mkconf(c["stride"])
+    curstride, curL = c["stride"], c["L"]
     seg = 0
     L = ["echo CASE %d" % k, "natoms 2", "temperature 300", "dt 1.0", "prefix c%ds%d" % (k, seg), "new"]
     if c["it0"]:
@@ -1006,16 +1041,25 @@ def runave_scenario(c, k):
         elif ev[0] == "restart":
             seg += 1
             f = "c%d_%d.state" % (k, seg)
-            L += ["flush", "save text %s" % f, "prefix c%ds%d" % (k, seg), "fresh"] + conf + ["load %s" % f]
+            if len(ev) > 1 and ev[1]:
+                curstride = ev[1]             # the resumed job uses another stride
+            if len(ev) > 2 and ev[2]:
+                curL = ev[2]                  # ... or a shorter window
+            conf = mkconf(curstride, curL)
+            L += ["flush", "save %s %s" % (c.get("fmt", "text"), f), "prefix c%ds%d" % (k, seg), "fresh"] + conf + ["load %s" % f]
     L += ["flush", "echo END %d" % k]
     return L
 
 
-def segments_of(c):
-    """-> list of segments, each {it_restart, hist: [(step_rel, it, x)] one entry per calc}"""
+def segments_of(c, carry=True):
+    """-> list of LOGICAL segments, each {it_restart, hist: [(step_rel, it, x)] one entry per calc, files: [process
+    segment indices]}.  A new process continues the running-average series of the previous one (the window is part
+    of the state) exactly when the state was written at a step whose value was sampled (on the stride grid, after the
+    step at which the analysis started); otherwise the analysis starts again at the restart step."""
     segs = []
     it = c["it0"]
-    cur = {"it_restart": it, "hist": []}
+    fileno = 0
+    cur = {"it_restart": it, "hist": [], "files": [0], "stride": c["stride"], "L": c["L"], "after": None, "known_from": None}
     first, boundary = True, False
     for ev in c["events"]:
         if ev[0] == "step":
@@ -1028,9 +1072,28 @@ def segments_of(c):
         elif ev[0] == "boundary":
             boundary = True
         elif ev[0] == "restart":
-            segs.append(cur)
-            cur = {"it_restart": it, "hist": []}
-            first, boundary = True, False
+            fileno += 1
+            rel = it - cur["it_restart"]
+            t0 = cur["hist"][0][0] if cur["hist"] else None
+            newstride = ev[1] if len(ev) > 1 and ev[1] else cur["stride"]
+            newL = ev[2] if len(ev) > 2 and ev[2] else cur["L"]
+            aligned = carry and cur["L"] > 1 and t0 is not None and rel > t0 and rel % cur["stride"] == 0 and newstride == cur["stride"]
+            if aligned and newL == cur["L"]:
+                cur["files"].append(fileno)       # same series, next file; the recomputed step is a repeated step
+                boundary = True
+            elif aligned and newL > 1:
+                # another window length: the new job knows the newest L-1 sampled values (those of steps S, S-s, ..) and goes on
+                # with the series of an uninterrupted run with the new window, as far as those values reach
+                segs.append(cur)
+                kf = it - (cur["L"] - 2) * cur["stride"]
+                kf = max(kf, cur["it_restart"] + (t0 // cur["stride"] + 1) * cur["stride"], cur["known_from"] or kf)
+                cur = {"it_restart": cur["it_restart"], "hist": list(cur["hist"]), "files": [fileno], "stride": newstride, "L": newL,
+                       "after": it, "known_from": kf}
+                boundary = True
+            else:
+                segs.append(cur)
+                cur = {"it_restart": it, "hist": [], "files": [fileno], "stride": newstride, "L": newL, "after": None, "known_from": None}
+                first, boundary = True, False
     segs.append(cur)
     return segs
 
@@ -1063,7 +1126,7 @@ def runave_oracle(L, stride, xs, tmax):
 def check_runave_case(run, c, k, impl_lines, scratch, model):
     segs = segments_of(c)
     replay = {"kind": "runave", "case": c}
-    lines = ["RUNAVE %d %d %d %d %s" % (c["L"], c["stride"], s["it_restart"], len(s["hist"]), " ".join("%d %s" % (t, hx(x)) for t, it, x in s["hist"]))
+    lines = ["RUNAVE %d %d %d %d %s" % (s["L"], s["stride"], 0, len(s["hist"]), " ".join("%d %s" % (t, hx(x)) for t, it, x in s["hist"]))
              for s in segs]
     rc, mout, err = V.run_lines(model, lines)
     if rc != 0 or len(mout) != len(segs):
@@ -1071,12 +1134,14 @@ def check_runave_case(run, c, k, impl_lines, scratch, model):
         return 0
     n = 0
     for si, s in enumerate(segs):
-        com, rows = parse_numfile(os.path.join(scratch, "c%ds%d.v0.runave.traj" % (k, si)))
+        rows = []
+        for fno in s["files"]:
+            rows += parse_numfile(os.path.join(scratch, "c%ds%d.v0.runave.traj" % (k, fno)))[1]
         xs = dedup(s["hist"])
         tmax = max(xs) if xs else -1
-        orc = runave_oracle(c["L"], c["stride"], xs, tmax)
+        orc = runave_oracle(s["L"], s["stride"], xs, tmax)
         # ---- oracle: every written line is the window mean / sample stddev at the step it carries
-        if rows and s["it_restart"] and [st for st, _ in rows] == [t for t in sorted(orc) if t >= c["L"] * c["stride"]][:len(rows)]:
+        if rows and s["it_restart"] and [st for st, _ in rows] == [t for t in sorted(orc) if t >= s["L"] * s["stride"]][:len(rows)]:
             run.violation("runave:step-label", "the lines carry the steps %s counted from the last restart (step %d), not the "
                           "steps %s at which the values held" % ([st for st, _ in rows][:6], s["it_restart"],
                                                                   [st + s["it_restart"] for st, _ in rows][:6]), replay)
@@ -1085,20 +1150,20 @@ def check_runave_case(run, c, k, impl_lines, scratch, model):
             t = step - s["it_restart"]
             if t not in orc:
                 run.violation("runave:step", "a line carries step %d (relative %d), where no full window of %d samples with stride %d ends"
-                              % (step, t, c["L"], c["stride"]), replay)
+                              % (step, t, s["L"], s["stride"]), replay)
                 continue
             m, var = orc[t]
             run.dist("oracle:runave-line")
             if not close(vals[0], float(m), OTOL):
-                win = [float(xs[t - j * c["stride"]]) for j in range(c["L"])]
+                win = [float(xs[t - j * s["stride"]]) for j in range(s["L"])]
                 run.violation("runave:mean", "step %d: running average %r, mean of the last %d samples %s is %r"
-                              % (step, vals[0], c["L"], win, float(m)), replay)
+                              % (step, vals[0], s["L"], win, float(m)), replay)
             elif var is not None and len(vals) > 1 and not close(vals[1], math.sqrt(var), OTOL):
                 run.violation("runave:stddev", "step %d: running stddev %r, sample standard deviation of the window is %r"
                               % (step, vals[1], math.sqrt(var)), replay)
         # lines must exist once the window is full (the value of relative step 0 is not sampled: the first
         # full window ends at relative step L*stride)
-        want_steps = [t + s["it_restart"] for t in sorted(orc) if t >= c["L"] * c["stride"]]
+        want_steps = [t + s["it_restart"] for t in sorted(orc) if t >= s["L"] * s["stride"] and (s["after"] is None or (t + s["it_restart"] > s["after"] and t + s["it_restart"] - (s["L"] - 1) * s["stride"] >= s["known_from"]))]
         got_steps = [st for st, _ in rows]
         if got_steps != want_steps and all((st - s["it_restart"]) in orc for st in got_steps):
             run.violation("runave:lines", "lines at steps %s, full windows end at steps %s" % (got_steps[:12], want_steps[:12]), replay)
@@ -1106,8 +1171,9 @@ def check_runave_case(run, c, k, impl_lines, scratch, model):
         mrows = []
         for part in mout[si].split(" ; "):
             t = part.split()
-            if t:
-                mrows.append((int(t[0]), [float.fromhex(t[1]), float.fromhex(t[3])]))
+            if t and (s["after"] is None or (int(t[0]) + s["it_restart"] > s["after"]
+                                             and int(t[0]) + s["it_restart"] - (s["L"] - 1) * s["stride"] >= s["known_from"])):
+                mrows.append((int(t[0]) + s["it_restart"], [float.fromhex(t[1]), float.fromhex(t[3])]))
         if [st for st, _ in rows] != [st for st, _ in mrows]:
             run.mismatch("runave:steps", c, [st for st, _ in rows][:12], [st for st, _ in mrows][:12])
             continue
@@ -1115,7 +1181,7 @@ def check_runave_case(run, c, k, impl_lines, scratch, model):
             n += 1
             if not close(a[0], b[0]):
                 run.mismatch("runave:mean", c, (st, a[0]), (st, b[0]))
-            elif c["L"] > 1 and not close(a[1], b[1], 1e-10):
+            elif s["L"] > 1 and not close(a[1], b[1], 1e-10):
                 run.mismatch("runave:stddev", c, (st, a[1]), (st, b[1]))
     return n
 
@@ -1126,7 +1192,7 @@ def gen_runave_case(r, tier):
     n = r.randint(L * stride, L * stride * 3 + 4)
     if tier != "quick":
         n += r.randint(0, 30)
-    it0 = r.choice([0, 0, r.randint(1, 50)])
+    it0 = r.choice([0, 0, r.randint(1, 50), big_step(r, stride)])
     events = [["step", V.dyadic(r, -8, 8, 3)]]
     for _ in range(n):
         u = r.random()
@@ -1134,10 +1200,10 @@ def gen_runave_case(r, tier):
         if u < 0.08:
             events += [["boundary"], ["step", last]]
         elif u < 0.12:
-            events += [["restart"], ["step", last]]
+            events += [["restart", r.choice([None, None, None, 1, 2, 3]), r.choice([None, None, 2, 3, 4])], ["step", last]]
         else:
             events.append(["step", V.dyadic(r, -8, 8, 3)])
-    return {"kind": "runave", "L": L, "stride": stride, "it0": it0, "events": events}
+    return {"kind": "runave", "L": L, "stride": stride, "it0": it0, "events": events, "fmt": r.choice(["text", "binary"])}
 
 
 
@@ -1199,7 +1265,7 @@ def runavev_scenario(c, k):
         elif ev[0] == "restart":
             seg += 1
             f = "c%d_%d.state" % (k, seg)
-            L += ["flush", "save text %s" % f, "prefix c%ds%d" % (k, seg), "fresh"] + heredoc(["colvarsTrajFrequency 0"] + dummy + main) + ["load %s" % f]
+            L += ["flush", "save %s %s" % (c.get("fmt", "text"), f), "prefix c%ds%d" % (k, seg), "fresh"] + heredoc(["colvarsTrajFrequency 0"] + dummy + main) + ["load %s" % f]
     L += ["flush", "echo END %d" % k]
     return L
 
@@ -1242,9 +1308,10 @@ def check_runavev_case(run, c, k, impl_lines, scratch, model):
     # segments: (it_restart, first relative step of the analysis, [(rel, it, value)])
     segs = []
     it = c["it0"]
-    curseg = {"it_restart": it, "hist": []}
+    curseg = {"it_restart": it, "hist": [], "files": [0]}
     first, boundary = True, False
     j = 0
+    fileno = 0
     for ev in c["events"]:
         if ev[0] == "step":
             if first:
@@ -1258,9 +1325,17 @@ def check_runavev_case(run, c, k, impl_lines, scratch, model):
         elif ev[0] == "boundary":
             boundary = True
         elif ev[0] == "restart":
-            segs.append(curseg)
-            curseg = {"it_restart": it, "hist": []}
-            first, boundary = True, False
+            fileno += 1
+            rel = it - curseg["it_restart"]
+            t0_ = curseg["hist"][0][0] if curseg["hist"] else None
+            # the window of a SCALAR variable is part of the state: the series continues when the state is written at a sampled step
+            if c["vtype"] in ("z", "zper") and c["L"] > 1 and t0_ is not None and rel > t0_ and rel % c["stride"] == 0:
+                curseg["files"].append(fileno)
+                boundary = True
+            else:
+                segs.append(curseg)
+                curseg = {"it_restart": it, "hist": [], "files": [fileno]}
+                first, boundary = True, False
     segs.append(curseg)
     vt = c["vtype"]
     kind = {"z": "scalar", "zper": "periodic %s" % hx(PERIOD), "vec": "vector3", "unit": "unit", "cart": "vector3", "quat": "quat"}[vt]
@@ -1280,7 +1355,7 @@ def check_runavev_case(run, c, k, impl_lines, scratch, model):
     lines = []
     for s in segs:
         dim = len(s["hist"][0][2]) if s["hist"] else 1
-        lines.append("RUNAVEV %s %d %d %d %d %d %s" % (kind, c["L"], c["stride"], s["it_restart"], dim, len(s["hist"]),
+        lines.append("RUNAVEV %s %d %d %d %d %d %s" % (kind, c["L"], c["stride"], 0, dim, len(s["hist"]),
                                                      " ".join("%d %s" % (t, " ".join(hx(q) for q in x)) for t, it, x in s["hist"])))
     rc, mout, err = V.run_lines(model, lines)
     if rc != 0 or len(mout) != len(segs):
@@ -1290,14 +1365,15 @@ def check_runavev_case(run, c, k, impl_lines, scratch, model):
     L, st = c["L"], c["stride"]
     for si, s in enumerate(segs):
         rows = []
-        path = os.path.join(scratch, "c%ds%d.v0.runave.traj" % (k, si))
-        if os.path.exists(path):
-            for line in open(path):
-                t = line.split()
-                if t and not t[0].startswith("#"):
-                    f = parse_fields(t[1:])
-                    av = f[0] if isinstance(f[0], list) else [f[0]]
-                    rows.append((int(t[0]), av, f[1]))
+        for fno in s["files"]:
+            path = os.path.join(scratch, "c%ds%d.v0.runave.traj" % (k, fno))
+            if os.path.exists(path):
+                for line in open(path):
+                    t = line.split()
+                    if t and not t[0].startswith("#"):
+                        f = parse_fields(t[1:])
+                        av = f[0] if isinstance(f[0], list) else [f[0]]
+                        rows.append((int(t[0]), av, f[1]))
         xs = {}
         for t, it, x in s["hist"]:
             xs.setdefault(t, x)
@@ -1348,7 +1424,7 @@ def check_runavev_case(run, c, k, impl_lines, scratch, model):
         for part in mout[si].split(" ; "):
             t = part.split()
             if t:
-                mrows.append((int(t[0]), [float.fromhex(q) for q in t[1].split(",")], float.fromhex(t[3])))
+                mrows.append((int(t[0]) + s["it_restart"], [float.fromhex(q) for q in t[1].split(",")], float.fromhex(t[3])))
         if [r_[0] for r_ in rows] != [r_[0] for r_ in mrows]:
             run.mismatch("runave:steps", c, [r_[0] for r_ in rows][:12], [r_[0] for r_ in mrows][:12])
             continue
@@ -1367,7 +1443,7 @@ def gen_runavev_case(r, tier):
     stride = r.choice([1, 2, 2, 3])
     t0 = r.choice([0, 0, 1, 2, 3, 5])
     n = t0 + L * stride + r.randint(2, 2 * L * stride + 4) + (r.randint(0, 30) if tier != "quick" else 0)
-    it0 = r.choice([0, 0, r.randint(1, 30)])
+    it0 = r.choice([0, 0, r.randint(1, 30), big_step(r, stride)])
     center = V.dyadic(r, -4, 4, 2)
 
     def val():
@@ -1401,7 +1477,7 @@ def gen_runavev_case(r, tier):
             events += [["restart"], list(last)]
         else:
             events.append(["step", val()])
-    return {"kind": "runavev", "vtype": vt, "L": L, "stride": stride, "t0": t0, "it0": it0, "events": events}
+    return {"kind": "runavev", "vtype": vt, "L": L, "stride": stride, "t0": t0, "it0": it0, "events": events, "fmt": r.choice(["text", "binary"])}
 
 
 
@@ -1640,10 +1716,10 @@ def check_out_case(run, c, k, impl_lines, scratch, model):
 
 
 def gen_out_case(r, tier):
-    R = r.choice([0, 0, 2, 3, 4])
+    R = r.choice([0, 0, 2, 3, 4, 6, 7])
     nb = r.choice([0, 1, 2])
-    biases = [(b, r.choice([0, 1, 2, 3, 5])) for b in range(nb)]
-    it0 = r.choice([0, 0, r.randint(1, 12)])
+    biases = [(b, r.choice([0, 1, 2, 3, 5, 6, 7])) for b in range(nb)]
+    it0 = r.choice([0, 0, r.randint(1, 12), big_step(r, max(R, 1))])
     n = r.randint(2, 10) + (r.randint(0, 20) if tier != "quick" else 0)
     events = []
     for i in range(n):
@@ -1663,6 +1739,8 @@ def gen_out_case(r, tier):
     elif u < 0.8:
         c["opes"] = {"p": r.choice([1, 2, 3]), "q": r.choice([1, 2, 3]), "F": r.choice([0, 2, 3])}
         c["biases"] = []
+        if c["it0"] > 10 ** 6:
+            c["it0"] = r.randint(1, 12)    # OPES files carry the time step*dt/1000 as a 6- or 15-digit float: no step resolution there
     return c
 
 
@@ -1675,9 +1753,9 @@ def label_scenario(c, k):
     L = ["echo CASE %d" % k, "natoms 4", "temperature 300", "dt 1.0", "prefix c%ds0" % k, "new"]
     conf = ["colvarsTrajFrequency 1"]
     for i, nm in enumerate(c["names"]):
-        conf += ["colvar {", "  name %s" % nm, "  outputVelocity on", "  outputAppliedForce on", "  distanceZ {", "    main { atomNumbers %d }" % (2 * i + 1),
+        conf += ["colvar {"] + ([] if c.get("unnamed") else ["  name %s" % nm]) + ["  outputVelocity on", "  outputAppliedForce on", "  distanceZ {", "    main { atomNumbers %d }" % (2 * i + 1),
                  "    ref { dummyAtom (0,0,0) }", "    axis (0,0,1)", "  }", "}"]
-    conf += ["harmonic {", "  name %s" % c["bname"], "  colvars %s" % c["names"][0], "  centers 0.5", "  forceConstant 1.0", "  outputEnergy on", "  outputCenters on", "}"]
+    conf += ["harmonic {"] + ([] if c.get("unnamed") else ["  name %s" % c["bname"]]) + ["  colvars %s" % c["names"][0], "  centers 0.5", "  forceConstant 1.0", "  outputEnergy on", "  outputCenters on", "}"]
     L += heredoc(conf) + ["show atomf 0 cv 0 bias 0 energy 0", "pos 1 0 0 1.0", "pos 3 0 0 2.0", "step", "pos 1 0 0 1.5", "step", "flush", "echo END %d" % k]
     return L
 
@@ -1729,7 +1807,10 @@ def check_label_case(run, c, k, impl_lines, scratch, model):
 def gen_label_case(r, tier):
     def nm(n):
         return "".join(r.choice("abcdefghijklmnopqrstuvwxyz") for _ in range(n))
-    kind = r.choice(["short", "short", "exact", "long", "samehead", "prefixclash"])
+    kind = r.choice(["short", "short", "exact", "long", "samehead", "prefixclash", "unnamed"])
+    if kind == "unnamed":
+        # objects without a name keyword get the default names colvar<n>, harmonic<n>
+        return {"kind": "label", "names": ["colvar1", "colvar2"], "bname": "harmonic1", "unnamed": True}
     if kind == "short":
         names = [nm(r.randint(1, 12)), nm(r.randint(1, 12))]
     elif kind == "exact":
@@ -1799,7 +1880,7 @@ def check_disk_case(run, c, k, impl_lines, scratch, model):
 
 
 def gen_disk_case(r, tier):
-    return {"kind": "disk", "freq": r.choice([1, 1, 2, 3]), "R": r.choice([0, 2, 3, 4, 5]), "it0": r.choice([0, 0, r.randint(1, 20), 999]),
+    return {"kind": "disk", "freq": r.choice([1, 1, 2, 3, 7]), "R": r.choice([0, 2, 3, 4, 5, 6]), "it0": r.choice([0, 0, r.randint(1, 20), 999, big_step(r)]),
             "vel": r.random() < 0.5, "xs": [V.dyadic(r, -4, 4, 3) for _ in range(r.randint(3, 12))]}
 
 
@@ -2140,7 +2221,7 @@ def corpus_cases():
     cs = []
     # running average, window 3: values 1 2 4 8 16 32
     cs.append({"kind": "runave", "L": 3, "stride": 1, "it0": 0, "events": [["step", float(2 ** i)] for i in range(7)]})
-    cs.append({"kind": "runave", "L": 2, "stride": 2, "it0": 10, "events": [["step", float(i * i)] for i in range(9)] + [["restart"]] + [["step", float(i)] for i in range(8, 16)]})
+    cs.append({"kind": "runave", "L": 2, "stride": 2, "it0": 10, "events": [["step", float(i * i)] for i in range(9)] + [["restart"], ["step", 64.0]] + [["step", float(i)] for i in range(9, 16)]})
     # a flag switched through the script interface
     cs.append({"kind": "traj", "freq": 1, "it0": 0, "dt": 1.0, "vars": [z(0)], "biases": [],
                "events": [["step", {"0": 1.0}], ["set", "var", 0, "velocity", True], ["step", {"0": 2.0}], ["step", {"0": 4.0}]]})
